@@ -156,6 +156,10 @@ func genFedSpec(W *core.Tape, rich bool, abstractMode int) *fedSpec {
 				f.Type = gTypeRef{Name: "Color"}
 			case 4:
 				f.Type = gTypeRef{Name: "String", List: true, ItemNonNull: true}
+				if nested && W.Prob(0.5) {
+					// a non-null list of nullable items: [String]! (some items are null)
+					f.Type = gTypeRef{Name: "String", List: true, NonNull: true}
+				}
 			case 5:
 				f.Type = gTypeRef{Name: "V0"}
 			case 6:
@@ -253,8 +257,11 @@ func genFedSpec(W *core.Tape, rich bool, abstractMode int) *fedSpec {
 				}
 				var cands []*fedField
 				for _, f := range e.Fields {
-					if f == g || f.Owner == g.Owner || !isScalarName(f.Type.Name) || f.Type.List || reaches(f, g.Name) {
+					if f == g || f.Owner == g.Owner || !isScalarName(f.Type.Name) || f.Type.Nested || reaches(f, g.Name) {
 						continue
+					}
+					if f.Type.List && !nested {
+						continue // lists as @requires inputs come with the extended generator only
 					}
 					if s.Abstract && abstractMode == 2 && !s.safeName(f.Name) {
 						continue
@@ -692,6 +699,8 @@ func (s *fedSpec) universeValue(typeName, id string, f *fedField) any {
 		for i := 0; i < n; i++ {
 			if tgt != nil && tgt.Entity {
 				out = append(out, &gObj{Type: tgt.Name, ID: strconv.Itoa(1 + int(s.h(typeName, id, f.Name, strconv.Itoa(i))%uint64(tgt.N)))})
+			} else if !f.Type.ItemNonNull && s.h(typeName, id, f.Name, "null", strconv.Itoa(i))%3 == 0 {
+				out = append(out, nil)
 			} else {
 				out = append(out, scalar(i))
 			}
